@@ -711,11 +711,17 @@ class RewriteRuleSet:
                         continue
                     initializers = graph_or_function.initializers
                     for initializer in delta.new_initializers:
-                        if initializer.name in initializers:
+                        name = initializer.name
+                        if name in initializers and initializers[name] is not initializer:
+                            # Never overwrite an initializer that is already registered:
+                            # its consumers would be left without a definition. Register
+                            # the new one under a fresh name instead.
                             if verbose:
-                                print(f"Initializer {initializer.name} already exists.")
-                            continue
-                    for initializer in delta.new_initializers:
+                                print(f"Initializer {name} already exists.")
+                            index = 1
+                            while f"{name}_{index}" in initializers:
+                                index += 1
+                            initializer.name = f"{name}_{index}"
                         initializers[initializer.name] = initializer  # type: ignore[index]
                 # TODO: This does not yet handle the problem of determining the correct insertion point
                 # for inserted nodes in the case of patterns with multiple output-nodes. The following
